@@ -320,6 +320,9 @@ let str_vis (v : vis) : string = match v with
    following events would reject anyway): every batch that holds write requests ends its
    writes with a sync, so the number of its requests with data equals the number of
    consecutive successful `w write` events that come next in the log. [None]: no hint. *)
+(* a witness of a replay: the model events taken, in order (kept reversed while searching);
+   [WReopen cfg]: the store was dropped, its worker ran to completion, the directory was opened again *)
+type wstep = WEv of zev | WReopen of config | WVis of vis   (* WVis: a visible event matched against the log *)
 let recv_hint : int option ref = ref None
 let batch_fits (z' : sys2) : bool =
   match !recv_hint with
@@ -332,7 +335,7 @@ let batch_fits (z' : sys2) : bool =
 
 (* all (state, visible event) pairs the worker can reach next through silent steps;
    [ok] is the result of the system call if the visible event is one *)
-let rec worker_next (z : sys2) (ok : bool) (depth : int) : (sys2 * vis) list =
+let rec worker_next_p (z : sys2) (ok : bool) (depth : int) (p : wstep list) : (sys2 * vis * wstep list) list =
   if depth > 5000 then [] else
   let w = z.z_w in
   if not w.w_alive then []
@@ -340,30 +343,32 @@ let rec worker_next (z : sys2) (ok : bool) (depth : int) : (sys2 * vis) list =
     | Some _ ->
       (match zstep z (ZWork ok) with
        | None -> []
-       | Some (z', []) -> worker_next z' ok (depth + 1)
-       | Some (z', v :: _) -> [(z', v)])
+       | Some (z', []) -> worker_next_p z' ok (depth + 1) (WEv (ZWork ok) :: p)
+       | Some (z', v :: _) -> [(z', v, WEv (ZWork ok) :: p)])
     | None ->
       (* receive: every enabled batch composition *)
       let qlen = List.length z.z_queue in
       let res = ref [] in
       for k = qlen downto 0 do
         List.iter (fun nf ->
-            match zstep z (ZRecv (nat_of_int k, nf)) with
+            let e = ZRecv (nat_of_int k, nf) in
+            match zstep z e with
             | None -> ()
-            | Some (z', _) -> if batch_fits z' then res := !res @ worker_next z' ok (depth + 1)) [true; false]
+            | Some (z', _) -> if batch_fits z' then res := !res @ worker_next_p z' ok (depth + 1) (WEv e :: p)) [true; false]
       done;
       !res
 
 (* run the worker to completion without faults, collecting nothing (used at drop/end) *)
-let rec worker_finish (z : sys2) (depth : int) : sys2 =
-  if depth > 100000 then z else
+let rec worker_finish_p (z : sys2) (depth : int) (p : wstep list) : sys2 * wstep list =
+  if depth > 100000 then (z, p) else
   let w = z.z_w in
-  if not w.w_alive then z
+  if not w.w_alive then (z, p)
   else match w.w_batch with
-    | Some _ -> (match zstep z (ZWork true) with None -> z | Some (z', _) -> worker_finish z' (depth + 1))
+    | Some _ -> (match zstep z (ZWork true) with None -> (z, p) | Some (z', _) -> worker_finish_p z' (depth + 1) (WEv (ZWork true) :: p))
     | None ->
-      if z.z_queue = [] then z
-      else (match zstep z (ZRecv (O, false)) with None -> z | Some (z', _) -> worker_finish z' (depth + 1))
+      if z.z_queue = [] then (z, p)
+      else (match zstep z (ZRecv (O, false)) with None -> (z, p) | Some (z', _) -> worker_finish_p z' (depth + 1) (WEv (ZRecv (O, false)) :: p))
+let worker_finish (z : sys2) (depth : int) : sys2 = fst (worker_finish_p z depth [])
 
 let disk_listing (d : disk) : string =
   String.concat "," (List.map (fun f -> string_of_n f.f_id ^ ":" ^ hex_of_bytes f.f_data) d)
@@ -429,50 +434,54 @@ let worker_quiesce (z : sys2) : sys2 list =
    on (silent steps, and receiving the next batch if requests are queued) until it is
    about to perform the next visible event or is idle. All ways of doing so (plus, when
    requests are queued for an idle worker, the state in which it has not yet woken up): *)
-let advance (z : sys2) : sys2 list =
+let advance_p (z : sys2) (p : wstep list) : (sys2 * wstep list) list =
   let seen = Hashtbl.create 16 in
   let out = ref [] in
-  let rec go (z : sys2) (depth : int) : unit =
+  let rec go (z : sys2) (p : wstep list) (depth : int) : unit =
     if depth > 100000 then () else
     let k = state_key z in
     if Hashtbl.mem seen k then () else begin
       Hashtbl.add seen k ();
       let w = z.z_w in
-      if not w.w_alive then out := z :: !out
+      if not w.w_alive then out := (z, p) :: !out
       else match w.w_batch with
         | Some _ ->
           (match zstep z (ZWork true) with
-           | None -> out := z :: !out
-           | Some (z', []) -> go z' (depth + 1)
-           | Some (_, _ :: _) -> out := z :: !out)      (* next step is visible: stop before it *)
+           | None -> out := (z, p) :: !out
+           | Some (z', []) -> go z' (WEv (ZWork true) :: p) (depth + 1)
+           | Some (_, _ :: _) -> out := (z, p) :: !out)      (* next step is visible: stop before it *)
         | None ->
-          if z.z_queue = [] then out := z :: !out
+          if z.z_queue = [] then out := (z, p) :: !out
           else begin
             (* normally the worker picks the queue up at once; under CPU pressure it may
                not have been scheduled yet: keep the state in which it has not *)
-            out := z :: !out;
+            out := (z, p) :: !out;
             let qlen = List.length z.z_queue in
             for k = qlen downto 0 do
               List.iter (fun nf ->
-                  match zstep z (ZRecv (nat_of_int k, nf)) with
+                  let e = ZRecv (nat_of_int k, nf) in
+                  match zstep z e with
                   | None -> ()
-                  | Some (z', _) -> if batch_fits z' then go z' (depth + 1)) [true; false]
+                  | Some (z', _) -> if batch_fits z' then go z' (WEv e :: p) (depth + 1)) [true; false]
             done
           end
     end in
-  go z 0; List.rev !out
+  go z p 0; List.rev !out
 
-let dedupe (l : (sys2 * string option) list) : (sys2 * string option) list =
+let dedupe (l : (sys2 * string option * wstep list) list) : (sys2 * string option * wstep list) list =
   let seen = Hashtbl.create 16 in
-  List.filter (fun (z, w) ->
+  List.filter (fun (z, w, _) ->
       let k = state_key z ^ (match w with None -> "" | Some x -> "#" ^ string_of_int (Hashtbl.hash x)) in
       if Hashtbl.mem seen k then false else (Hashtbl.add seen k (); true)) l
 
 let trunc_str (s : string) (n : int) = if String.length s > n then String.sub s 0 n else s
 
+let last_witness : (wstep list * string option) option ref = ref None
 let replay_all (z0 : sys2) (evs : (int * string) list) : string =
   let snaps = ref [] in
-  let frontier = ref [(z0, None)] in
+  last_witness := None;
+  let end_disk = ref None in
+  let frontier = ref [(z0, None, [])] in
   let result = ref None in
   let stop msg = result := Some msg; raise Exit in
   let evarr = Array.of_list (List.map snd evs) in
@@ -493,7 +502,7 @@ let replay_all (z0 : sys2) (evs : (int * string) list) : string =
          let hint_now = run_from.(pos) and hint_after = run_from.(pos + 1) in
          recv_hint := hint_after;
          let fail msg = stop (Printf.sprintf "mismatch: event %d `%s`: %s" i (trunc_str e 160) msg) in
-         let alive = List.exists (fun (z, _) -> z.z_w.w_alive) !frontier in
+         let alive = List.exists (fun (z, _, _) -> z.z_w.w_alive) !frontier in
          if (not alive) && not (starts_with e "c end") then begin
            snaps := "worker-dead" :: !snaps; raise Exit
          end;
@@ -504,10 +513,10 @@ let replay_all (z0 : sys2) (evs : (int * string) list) : string =
              if e = "c opened" || starts_with e "c openerr" || e = "c panic" then begin
                let cfg = (match !pending_open with Some c -> c | None -> assert false) in
                pending_open := None;
-               List.concat_map (fun (z, _) ->
-                   let zf = worker_finish z 0 in
+               List.concat_map (fun (z, _, p) ->
+                   let (zf, p) = worker_finish_p z 0 p in
                    match open_dir cfg zf.z_disk with
-                   | OpenOk y -> if e = "c opened" then [(sys2_of y, None)] else (note ("model opens the directory, implementation: " ^ e); [])
+                   | OpenOk y -> if e = "c opened" then [(sys2_of y, None, WReopen cfg :: p)] else (note ("model opens the directory, implementation: " ^ e); [])
                    | OpenErr (er, _) ->
                      let want = "c openerr " ^ str_kind (err_kind er) in
                      if e = want then (snaps := "open-refused" :: !snaps; []) else (note ("model: " ^ want); [])) !frontier
@@ -517,87 +526,89 @@ let replay_all (z0 : sys2) (evs : (int * string) list) : string =
              match p_op (after e "c call ") with
              | Disk | Resident | Dump | SnapTake | SnapIter | Stress | DumpAbort | Mutate _ -> fail "unsupported op in trace"
              | Op o ->
-               List.concat_map (fun (z, _) ->
+               List.concat_map (fun (z, _, p) ->
                    match zstep z (ZCall o) with
                    | None -> note "model: call not enabled (panic or call in progress)"; []
                    | Some (z', vs) ->
                      let want = (match vs with VResult r :: _ -> str_result r | _ -> "?") in
-                     [(z', Some want)]) !frontier
+                     [(z', Some want, WEv (ZCall o) :: p)]) !frontier
            end
            else if starts_with e "c ret " then begin
              let got = after e "c ret " in
-             List.concat_map (fun (z, w) ->
+             List.concat_map (fun (z, w, p) ->
                  match w with
                  | Some want when want <> got ->
                    note (Printf.sprintf "result differs: implementation `%s` / model `%s`" (trunc_str got 6000) (trunc_str want 6000)); []
                  | _ ->
-                   let rec drain z = match zstep z ZEff with
-                     | None -> Some z
-                     | Some (z', []) -> drain z'
+                   let rec drain z p = match zstep z ZEff with
+                     | None -> Some (z, p)
+                     | Some (z', []) -> drain z' (WEv ZEff :: p)
                      | Some (_, v :: _) -> note ("model expects caller effect `" ^ str_vis v ^ "` before the call returns"); None in
-                   (match drain z with Some z' -> List.map (fun x -> (x, None)) (advance z') | None -> [])) !frontier
+                   (match drain z p with Some (z', p') -> List.map (fun (x, px) -> (x, None, px)) (advance_p z' p') | None -> [])) !frontier
            end
            else if starts_with e "c create " || starts_with e "c write " then begin
              let obs = (if starts_with e "c create " then
                           (match String.split_on_char ' ' e with [_; _; id; _] -> "create " ^ id | _ -> e)
                         else e) in
-             List.concat_map (fun (z, w) ->
-                 if w = None then [(z, w)]      (* recovery's own system calls: not part of a call *)
+             List.concat_map (fun (z, w, p) ->
+                 if w = None then [(z, w, p)]      (* recovery's own system calls: not part of a call *)
                  else
-                   let rec step z = match zstep z ZEff with
+                   let rec step z p = match zstep z ZEff with
                      | None -> None
-                     | Some (z', []) -> step z'
-                     | Some (z', v :: _) -> Some (z', v) in
-                   match step z with
+                     | Some (z', []) -> step z' (WEv ZEff :: p)
+                     | Some (z', v :: _) -> Some (z', v, WEv ZEff :: p) in
+                   match step z p with
                    | None -> note "model has no pending caller effect"; []
-                   | Some (z', v) ->
-                     if str_vis v = obs then [(z', w)] else (note ("caller effect differs: model `" ^ str_vis v ^ "`"); [])) !frontier
+                   | Some (z', v, p') ->
+                     if str_vis v = obs then [(z', w, WVis v :: p')] else (note ("caller effect differs: model `" ^ str_vis v ^ "`"); [])) !frontier
            end
            else if starts_with e "w " then begin
              let ok = not (String.length e >= 4 && String.sub e (String.length e - 4) 4 = "fail") in
              (* a worker event inside a call of the caller (the caller is blocked handing a
                 request to the worker, or runs concurrently): the requests the call still has
                 to hand over may or may not have reached the queue *)
-             let pre = List.concat_map (fun (z, w) ->
-                 if w = None then [(z, w)] else
-                   let rec go z acc = (match zstep z ZEff with
-                       | Some (z', []) -> go z' ((z', w) :: acc)
+             let pre = List.concat_map (fun (z, w, p) ->
+                 if w = None then [(z, w, p)] else
+                   let rec go z p acc = (match zstep z ZEff with
+                       | Some (z', []) -> let p' = WEv ZEff :: p in go z' p' ((z', w, p') :: acc)
                        | _ -> List.rev acc) in
-                   (z, w) :: go z []) !frontier in
-             List.concat_map (fun (z, w) ->
+                   (z, w, p) :: go z p []) !frontier in
+             List.concat_map (fun (z, w, p) ->
                  recv_hint := hint_now;
-                 let all = worker_next z ok 0 in
+                 let all = worker_next_p z ok 0 p in
                  recv_hint := hint_after;
-                 let cs = List.filter (fun (_, v) -> str_vis v = e) all in
-                 if cs = [] then note ("model worker could: [" ^ String.concat " | " (List.map (fun (_, v) -> str_vis v) all) ^ "]");
-                 List.concat_map (fun (z', _) -> List.map (fun x -> (x, w)) (advance z')) cs) pre
+                 let cs = List.filter (fun (_, v, _) -> str_vis v = e) all in
+                 if cs = [] then note ("model worker could: [" ^ String.concat " | " (List.map (fun (_, v, _) -> str_vis v) all) ^ "]");
+                 List.concat_map (fun (z', v, p') -> List.map (fun (x, px) -> (x, w, px)) (advance_p z' (WVis v :: p'))) cs) pre
            end
            else if starts_with e "c snap " then begin
              let obs = String.trim (after e "c snap disk") in
-             let keep = List.filter (fun (z, _) -> disk_listing z.z_disk = obs) !frontier in
+             let keep = List.filter (fun (z, _, _) -> disk_listing z.z_disk = obs) !frontier in
              (match keep with
-              | (z, _) :: _ -> snaps := ("snap " ^ synced_listing z.z_disk) :: !snaps
-              | [] -> (match !frontier with (z, _) :: _ -> note ("directory differs at snapshot: model " ^ trunc_str (disk_listing z.z_disk) 400) | [] -> ()));
+              | (z, _, _) :: _ -> snaps := ("snap " ^ synced_listing z.z_disk) :: !snaps
+              | [] -> (match !frontier with (z, _, _) :: _ -> note ("directory differs at snapshot: model " ^ trunc_str (disk_listing z.z_disk) 400) | [] -> ()));
              keep
            end
            else if starts_with e "c idle" then
-             List.concat_map (fun (z, w) ->
-                 let zs = List.filter (fun x -> (not x.z_w.w_alive) || (x.z_w.w_batch = None && x.z_queue = [])) (advance z) in
+             List.concat_map (fun (z, w, p) ->
+                 let zs = List.filter (fun (x, _) -> (not x.z_w.w_alive) || (x.z_w.w_batch = None && x.z_queue = [])) (advance_p z p) in
                  if zs = [] then note "model worker still has a visible event to perform, the implementation is idle";
-                 List.map (fun z' -> (z', w)) zs) !frontier
+                 List.map (fun (z', p') -> (z', w, p')) zs) !frontier
            else if e = "c drop" then
-             List.concat_map (fun (z, w) -> match zstep z ZDrop with None -> (note "drop not enabled"; []) | Some (z', _) -> [(z', w)]) !frontier
+             List.concat_map (fun (z, w, p) -> match zstep z ZDrop with None -> (note "drop not enabled"; []) | Some (z', _) -> [(z', w, WEv ZDrop :: p)]) !frontier
            else if starts_with e "c open " then begin
              pending_open := Some (p_cfg (toks (after e "c open ")));
              !frontier
            end
            else if starts_with e "c end " then begin
              let obs = String.trim (after e "c end disk") in
-             let keep = List.filter (fun (z, _) ->
-                 let zf = worker_finish z 0 in (not z.z_w.w_alive) || disk_listing zf.z_disk = obs) !frontier in
+             let keep = List.filter_map (fun (z, w, p) ->
+                 let (zf, pf) = worker_finish_p z 0 p in
+                 if (not z.z_w.w_alive) || disk_listing zf.z_disk = obs then Some (zf, w, pf) else None) !frontier in
              (match keep with
-              | (z, _) :: _ -> snaps := ("end " ^ synced_listing (worker_finish z 0).z_disk) :: !snaps
-              | [] -> (match !frontier with (z, _) :: _ -> note ("final directory differs: model " ^ trunc_str (disk_listing (worker_finish z 0).z_disk) 400) | [] -> ()));
+              | (zf, _, _) :: _ -> snaps := ("end " ^ synced_listing zf.z_disk) :: !snaps;
+                if zf.z_w.w_alive then end_disk := Some obs
+              | [] -> (match !frontier with (z, _, _) :: _ -> note ("final directory differs: model " ^ trunc_str (disk_listing (worker_finish z 0).z_disk) 400) | [] -> ()));
              keep
            end
            else !frontier in
@@ -610,7 +621,12 @@ let replay_all (z0 : sys2) (evs : (int * string) list) : string =
    with Exit -> ());
   match !result with
   | Some m -> m
-  | None -> String.concat " ; " ("ok" :: List.rev !snaps)
+  | None ->
+    (match !frontier with
+     | (_, _, p) :: _ when not (List.mem "open-refused" !snaps) && not (List.mem "worker-dead" !snaps) ->
+       last_witness := Some (List.rev p, !end_disk)
+     | _ -> ());
+    String.concat " ; " ("ok" :: List.rev !snaps)
 
 let do_trace (rest : string) : string =
   match split_on '|' rest with
@@ -733,6 +749,45 @@ let do_coqimg (idx : string) (rest : string) : string =
       (coq_list (fun f -> Printf.sprintf "(mkFile %s %s %s)" (coq_n f.f_id) (coq_bytes f.f_data) (coq_n f.f_synced)) d) summary
   | _ -> failwith "bad COQIMG"
 
+(* the same for the trace replay: the witness run found by the search (the model events
+   taken, batch compositions included) is re-run by the kernel's VM on Model/Sys.v; its
+   visible events must be the observed system calls and callbacks, its final directory the
+   observed one *)
+let coq_vis (v : vis) = match v with
+  | VCreate id -> "(VCreate " ^ coq_n id ^ ")"
+  | VWrite (c, id, len, ok) -> Printf.sprintf "(VWrite %b %s %s %b)" c (coq_n id) (coq_n len) ok
+  | VSync (id, ok) -> Printf.sprintf "(VSync %s %b)" (coq_n id) ok
+  | VUnlink (id, ok) -> Printf.sprintf "(VUnlink %s %b)" (coq_n id) ok
+  | VCallback (c, ok) -> Printf.sprintf "(VCallback %s %b)" (coq_n c) ok
+  | VResult _ -> "VRES"
+let coq_zev (e : zev) = match e with
+  | ZCall o -> "(ZCall " ^ coq_op o ^ ")"
+  | ZEff -> "ZEff"
+  | ZRecv (k, nf) -> Printf.sprintf "(ZRecv %d %b)" (int_of_nat k) nf
+  | ZWork ok -> Printf.sprintf "(ZWork %b)" ok
+  | ZDrop -> "ZDrop"
+let do_coqtrace (idx : string) (rest : string) : string =
+  let r = do_trace rest in
+  match !last_witness with
+  | None -> "(* x" ^ idx ^ ": no witness (" ^ trunc_str r 60 ^ ") *)"
+  | Some (p, end_disk) ->
+    let cfg = (match split_on '|' rest with c :: _ -> p_cfg (toks c) | [] -> failwith "bad COQTRACE") in
+    let ws = List.filter_map (fun x -> match x with
+        | WEv e -> Some ("WEv " ^ coq_zev e) | WReopen c -> Some ("WReopen " ^ coq_cfg c) | WVis _ -> None) p in
+    let vs = List.filter_map (fun x -> match x with WVis v -> Some (coq_vis v) | _ -> None) p in
+    (match end_disk with
+     | Some obs ->
+       let files = List.filter (fun t -> t <> "") (String.split_on_char ',' obs) in
+       let ds = List.map (fun t -> match String.split_on_char ':' t with
+           | [id; hex] -> let b = bytes_of_hex hex in
+             Printf.sprintf "(%s, %s, %s)" (coq_n (n_of_string id)) (coq_n (n_of_int (List.length b))) (coq_n (crc32 b))
+           | _ -> failwith "bad end listing") files in
+       Printf.sprintf "Example x%s : tsum2 (wrun0 %s [%s]) = Some ([%s], [%s]). Proof. vm_compute. reflexivity. Qed." idx
+         (coq_cfg cfg) (String.concat "; " ws) (String.concat "; " vs) (String.concat "; " ds)
+     | None ->
+       Printf.sprintf "Example x%s : tsum1 (wrun0 %s [%s]) = Some [%s]. Proof. vm_compute. reflexivity. Qed." idx
+         (coq_cfg cfg) (String.concat "; " ws) (String.concat "; " vs))
+
 let do_enc (rest : string) : string =
   let r = p_record (toks rest) in
   let b = enc_record r in
@@ -785,6 +840,10 @@ let () =
                  | idx :: _ -> let r = String.trim rest in
                    let r' = String.sub r (String.length idx) (String.length r - String.length idx) in do_coqimg idx r'
                  | [] -> failwith "bad COQIMG")
+             | "COQTRACE" -> (match toks rest with
+                 | idx :: _ -> let r = String.trim rest in
+                   let r' = String.sub r (String.length idx) (String.length r - String.length idx) in do_coqtrace idx r'
+                 | [] -> failwith "bad COQTRACE")
              | "COQ" -> (match toks rest with
                  | idx :: _ -> let r = String.trim rest in
                    let r' = String.sub r (String.length idx) (String.length r - String.length idx) in do_coq idx r'
